@@ -6,9 +6,6 @@
 -/
 import Golib.Ext.UdpClient
 
-set_option profiler true
-set_option profiler.threshold 500
-
 namespace Ext.Udp
 
 /-! ### frames -/
@@ -120,7 +117,7 @@ theorem send_rel (cfg : Cfg) (s : St) (c : Cut) (f : Frame) (fl : Bool) (h : Rel
     by_cases h1 : size cur + frameLen f > cfg.limit <;>
     by_cases h2 : chan.length < cfg.chanCap <;>
     by_cases h3 : chan.length + 1 < cfg.chanCap <;>
-    simp [h1, h2, h3, encFrames_append] <;> constructor <;> simp_all [encFrames_append]
+    simp [h1, h2, h3] <;> constructor <;> simp_all [encFrames_append]
 
 theorem tick_rel (cfg : Cfg) (s : St) (c : Cut) (h : Rel s c) :
     Rel (tick cfg s) c.close := by
